@@ -12,3 +12,23 @@ add("C16", "reference-model oracle + icontract postcondition on the real functio
     "are asserted; contract K5 watches every call. Held = no disagreement on the executions of this run.",
     "Trusted: numpy.fft as reference transform; float32 tolerance 2e-4 relative. Shapes up to 17 per side only.",
     "DESIGN.md section 4 C16")
+
+add("C08", "reference-model oracle (bin-by-bin tilt geometry) + icontract postcondition K7 on create_mask",
+    "Every mask entry point (tilt models, dual axis, no wedge, backend helper, utility function, the three ways of "
+    "giving a range to an alignment model, mask_missing_wedge) is compared bin by bin with keep <=> the physical "
+    "frequency R(k/shape) lies between the two tilt planes, over all side-parity classes (thorough: all 512 shapes in "
+    "[1..8]^3), cube-symmetry and random orientations, 12+ tilt ranges, both axes; DC, k->-k symmetry, union and "
+    "realness are asserted. Held = no decided bin disagreed in this run.",
+    "Bins within 1e-5 of a wedge plane are undecided (float32 normals). On an even-axis Nyquist plane the stored index "
+    "-N/2 aliases +N/2: the mask must match the geometry of one alias and symmetry is not judged there (the two clauses "
+    "of the statement conflict on those bins).",
+    "DESIGN.md section 4 C08")
+
+add("C11", "law checking against explicit scipy-Rotation algebra + icontract class invariant K4 on Molecules",
+    "Batches mixing generic, axis-aligned, 180-degree and near-0/near-pi orientations are pushed through axes, "
+    "composition, copy semantics, random programs of 1-8 rotate/translate calls, all constructor/reader round trips "
+    "(12 Euler sequences x intrinsic/extrinsic x both coordinate orders, from_axes with the three axis pairs), affine "
+    "matrices and local sampling grids; each result is compared with float64 reference algebra.",
+    "Trusted: scipy Rotation composition. from_euler(order='xyz') is compared with the convention pinned by the "
+    "repository's own test_euler (P R^-1 P). Tolerances 2e-6 rad / float32 positions.",
+    "DESIGN.md section 4 C11")
